@@ -4,7 +4,12 @@ import os
 import subprocess
 from .common import Check, read_keyed, ROOT
 
-KINDS = ("HP", "HX", "HD", "HS", "B", "BD", "M", "MD", "Q", "QD", "S", "SD", "T")
+KINDS = ("HP", "HX", "HD", "HS", "B", "BD", "M", "MD", "Q", "QD", "S", "SD", "T",
+         "CI", "CP", "XI", "XID", "XA", "XAD", "XB", "XBD", "XQ", "XQD", "XS", "XSD",
+         "A", "AR", "AD", "MC", "MF", "MTD", "MN", "MI")
+# formats that have a Coq model (their T cases are supplementary tests); the others are tested-not-proved
+MODELLED_T = ("checkin", "bdx", "bleadv", "statusreport")
+PARTLY_MODELLED_T = ("mdns",)
 KIND_TEXT = {
     "HP": "PlainHdr encode/decode round trip", "HX": "ProtoHdr encode/decode round trip",
     "HD": "header decoders on arbitrary bytes", "HS": "PlainHdr built with the public setters",
@@ -12,6 +17,18 @@ KIND_TEXT = {
     "M": "manual pairing code compute/parse round trip", "MD": "manual pairing code parser on an arbitrary string",
     "Q": "QR payload encode/parse round trip", "QD": "QR parser on an arbitrary string",
     "S": "StatusReport write/read round trip", "SD": "StatusReport reader on arbitrary bytes",
+    "CI": "check-in payload generate/parse round trip", "CP": "check-in parser on arbitrary bytes",
+    "XI": "BDX TransferInit write/parse", "XID": "BDX TransferInit parser on arbitrary bytes",
+    "XA": "BDX TransferAccept write/parse", "XAD": "BDX TransferAccept parser on arbitrary bytes",
+    "XB": "BDX Block write/parse", "XBD": "BDX Block parser on arbitrary bytes",
+    "XQ": "BDX BlockQuery write/parse", "XQD": "BDX BlockQuery parser on arbitrary bytes",
+    "XS": "BDX BlockQueryWithSkip write/parse", "XSD": "BDX BlockQueryWithSkip parser on arbitrary bytes",
+    "A": "BLE commissionable advertisement round trip", "AR": "BLE recovery advertisement round trip",
+    "AD": "BLE advertisement parsers on arbitrary bytes",
+    "MC": "mDNS commissionable TXT record published and read back",
+    "MF": "mDNS TXT fields: filter match, session parameters, TCP flag",
+    "MTD": "mDNS TXT reader on arbitrary rdata", "MN": "mDNS instance-name label round trip",
+    "MI": "mDNS instance-name label matching",
 }
 
 
@@ -155,9 +172,16 @@ def main(tier, replay=None):
         "generator_stats": stats,
         "monitor_cases": n_mon,
         "monitor_violations": mon_viol,
+        "proved_formats": ["PlainHdr", "ProtoHdr", "base-38", "Verhoeff", "manual pairing code", "QR payload (fixed part + raw tail)",
+                           "StatusReport", "check-in payload layout (symbolic AEAD)", "BDX message bodies",
+                           "BLE advertisement payloads", "mDNS TXT records + instance-name labels"],
         "tested_not_proved": {
             "note": "no Coq model: only the implementation's own encode/decode round trip and absence of panics are TESTED",
-            "cases": tnp_counts, "violations": tnp_viol},
+            "formats": ["cert (Matter TLV -> X.509 DER)", "cd (certification declaration)",
+                        "mdns DNS message framing (names, SRV/A/AAAA records; the domain crate)"],
+            "cases": {k: v for k, v in tnp_counts.items() if k.split(":")[0] not in MODELLED_T},
+            "violations": tnp_viol},
+        "supplementary_tests_of_modelled_formats": {k: v for k, v in tnp_counts.items() if k.split(":")[0] in MODELLED_T},
         "disagreements_checked": len(diffs),
         "exhaustive": False,
         "exhaustive_parts": "all 8 MsgFlags x 6 SecFlags values, all 32 ExchFlags values (boundary fields), all 256 first header bytes, "
@@ -166,12 +190,16 @@ def main(tier, replay=None):
     c.finish(level="proof",
              trusted_base=["Coq 8.16.1 kernel (coqc; coqchk in thorough tier)", "no axioms (Closed under the global context)",
                            "extraction ExtrOcamlBasic + hand-written OCaml driver ocaml/c17/driver.ml, ocaml/common/util.ml",
-                           "Rust harness harness/src/bin/c17.rs, harness/src/c17_formats.rs and hooks (cfg rs_matter_verif) "
-                           "PlainHdr/ProtoHdr::verif_raw / verif_from_raw",
+                           "Rust harness harness/src/bin/c17.rs, harness/src/c17_deep.rs, harness/src/c17_formats.rs and hooks "
+                           "(cfg rs_matter_verif) PlainHdr/ProtoHdr::verif_raw / verif_from_raw, MatterLocalService::verif_service",
                            "the verhoeff crate's tables were transcribed into Model/Codecs.v; tied by the manual-code cases",
                            "correspondence is differential testing on the generated cases"],
              assumptions=["models = Model/Headers.v, Model/Codecs.v hand-transcribed from plain_hdr.rs, proto_hdr.rs, base38.rs, "
                           "pairing/code.rs, pairing/qr.rs, sc.rs; tied to the code only by the correspondence run",
                           "QR: fixed 88-bit part and the raw optional tail; TLV content of the tail (serial number) is C16's",
-                          "PARTIAL: mDNS, certificate TLV->X.509 conversion, certification declaration, BLE advertisement, "
-                          "check-in, BDX have NO model; they are tested-not-proved (round trip + no panic on generated and hostile inputs)"])
+                          "check-in: HMAC nonce derivation and AES-CCM are symbolic (any functions satisfying aead_ideal); "
+                          "the oracle answers fed to the model are computed by the harness with the crypto backend directly",
+                          "mDNS: TXT rdata, TXT field parsing, number/hex printing and instance labels are modelled; DNS message "
+                          "framing and name compression (domain crate) are not",
+                          "PARTIAL: certificate TLV->X.509 conversion, certification declaration and DNS message framing have NO "
+                          "model; they are tested-not-proved (round trip + no panic on generated and hostile inputs)"])
